@@ -890,7 +890,7 @@ class Gen:
                 kind = "let"
             name = self.pick_name(scope)
             # `var y = i` binds y to the very cell of i: an alias of a loop counter must stay as untouchable as the counter
-            alias_of_reserved = e[0] == "var" and self.reserved(scope, e[1])
+            alias_of_reserved = self.may_be_reserved_cell(scope, e)
             scope.add(name, ty, "V" if kind == "var" else "C", small=(ty == INT and kind == "let" and self.is_small(e)),
                       reserved=alias_of_reserved)
             self.use("bind:" + kind)
@@ -926,6 +926,23 @@ class Gen:
             return [["e", self.forin(scope, d)]]
         e, _ = self.expr(self.pick_type(), scope, d)
         return [["e", e]]
+
+    def may_be_reserved_cell(self, scope, e):
+        """can the value of e be the very CELL of a reserved name (a loop counter)?  A name, and the constructs that pass on
+        the cell of a sub-expression: a conditional, a block, a match / if-let"""
+        t = e[0]
+        if t == "var":
+            return self.reserved(scope, e[1])
+        if t == "cond":
+            return self.may_be_reserved_cell(scope, e[2]) or self.may_be_reserved_cell(scope, e[3])
+        if t == "seq":
+            last = e[1][-1]
+            return last[0] == "e" and self.may_be_reserved_cell(scope, last[1])
+        if t == "match":
+            return any(self.may_be_reserved_cell(scope, g[-1]) for g in e[2])
+        if t == "iflet":
+            return self.may_be_reserved_cell(scope, e[1][-1]) or (e[3] is not None and self.may_be_reserved_cell(scope, e[3]))
+        return False
 
     def is_small(self, e):
         """syntactically small int (a literal below 10 or masked): its name may be used directly as a range bound.
